@@ -590,6 +590,73 @@ impl Bridge for Fragile {
     }
 }
 
+/// a client codec that stores its bytes as a compressed frame
+pub struct Zipped(pub Vec<u8>);
+impl desert::BinarySerializer for Zipped {
+    fn serialize<O: BinaryOutput>(&self, context: &mut SerializationContext<O>) -> desert::Result<()> {
+        context.write_compressed(&self.0, Default::default())
+    }
+}
+impl desert::BinaryDeserializer for Zipped {
+    fn deserialize(context: &mut DeserializationContext<'_>) -> desert::Result<Self> {
+        Ok(Zipped(context.read_compressed()?))
+    }
+}
+impl Bridge for Zipped {
+    fn ty() -> Ty {
+        Ty::Compressed
+    }
+    fn to_val(&self) -> Val {
+        Val::Bytes(self.0.clone())
+    }
+    fn from_val(v: &Val) -> Self {
+        Zipped(v.as_bytes().to_vec())
+    }
+}
+
+/// compressed blocks inside chunks of an evolved record, between sibling fields
+#[derive(BinaryCodec)]
+#[evolution(FieldAdded("blob", Zipped(Vec::new())), FieldAdded("more", None))]
+pub struct Archive {
+    pub id: u32,
+    pub head: Zipped,
+    pub blob: Zipped,
+    pub tail: u16,
+    pub more: Option<Zipped>,
+}
+impl Bridge for Archive {
+    fn ty() -> Ty {
+        Ty::Adt("Archive".into())
+    }
+    fn register(reg: &mut Registry) {
+        reg.insert(AdtDef::Record(RecordDef {
+            name: "Archive".into(),
+            option_aware: true,
+            steps: vec![Step::Added("blob".into()), Step::Added("more".into())],
+            fields: vec![
+                field("id", Ty::U32),
+                field("head", Ty::Compressed),
+                FieldDef { name: "blob".into(), ty: Ty::Compressed, transient: None, default: Some(Val::Bytes(vec![])) },
+                field("tail", Ty::U16),
+                FieldDef { name: "more".into(), ty: Ty::opt(Ty::Compressed), transient: None, default: Some(Val::None) },
+            ],
+        }));
+    }
+    fn to_val(&self) -> Val {
+        Val::Record(vec![self.id.to_val(), self.head.to_val(), self.blob.to_val(), self.tail.to_val(), self.more.to_val()])
+    }
+    fn from_val(v: &Val) -> Self {
+        let f = v.items();
+        Archive {
+            id: Bridge::from_val(&f[0]),
+            head: Bridge::from_val(&f[1]),
+            blob: Bridge::from_val(&f[2]),
+            tail: Bridge::from_val(&f[3]),
+            more: Bridge::from_val(&f[4]),
+        }
+    }
+}
+
 /// an evolved record with a fragile field in a later chunk: when it fails, earlier chunks have
 /// already been written into their buffers
 #[derive(BinaryCodec)]
@@ -636,6 +703,8 @@ impl Bridge for Brittle {
         }
     }
 }
+
+include!("big_enum.rs");
 
 macro_rules! cat {
     ($reg:expr; $($t:ty),* $(,)?) => {
@@ -689,6 +758,7 @@ pub fn builtin_catalog() -> Catalog {
         Vec<Shape>, BTreeMap<u8, Tree>, Vec<Outer>, (Point, Point),
         Streamed<u16>, Streamed<String>, Streamed<(u8, String)>, (Streamed<i64>, u8), Vec<Streamed<u32>>,
         Streamed<Point>, Vec<i8>, [i8; 3], LinkedList<i8>, Vec<u32>, BTreeSet<i8>,
+        Big200, Vec<Big200>, (Big200, u8), Zipped, (Zipped, String), Vec<Zipped>, Archive, Vec<Archive>, (Archive, u8),
         Fragile, (String, Fragile), Vec<Fragile>, Brittle, Vec<Brittle>, (Brittle, Point),
     ];
     for e in entries.iter_mut() {
